@@ -313,6 +313,10 @@ struct CallOpts {
     em: bool,
     dynamic: bool,
     dump: bool,
+    /// channel offset for the signal: channel c carries the data of channel c+co (C11 twins)
+    co: usize,
+    /// frames of this call from this index on are zero (C16: zero padding), a size spec
+    zl: Option<String>,
 }
 
 fn parse_opts(t: &[&str]) -> Option<CallOpts> {
@@ -324,6 +328,8 @@ fn parse_opts(t: &[&str]) -> Option<CallOpts> {
         em: false,
         dynamic: false,
         dump: false,
+        co: 0,
+        zl: None,
     };
     for w in t {
         if let Some(v) = w.strip_prefix("ic=") {
@@ -336,6 +342,10 @@ fn parse_opts(t: &[&str]) -> Option<CallOpts> {
         } else if let Some(v) = w.strip_prefix("so=") {
             let (a, b) = v.split_once(':')?;
             o.so.push((a.parse().ok()?, b.parse().ok()?));
+        } else if let Some(v) = w.strip_prefix("co=") {
+            o.co = v.parse().ok()?;
+        } else if let Some(v) = w.strip_prefix("zl=") {
+            o.zl = Some(v.to_string());
         } else if *w == "em" {
             o.em = true;
         } else if *w == "dyn" {
@@ -392,6 +402,8 @@ fn data_section<T: Smp>(chans: &[Vec<T>], upto: usize, active: &dyn Fn(usize) ->
 
 impl<T: Smp> Slot<T> {
     fn make_input(&self, sig: &Sig, nch_given: usize, len_all: usize, o: &CallOpts, mask: &Option<Vec<bool>>) -> Vec<Vec<T>> {
+        let (inn, inm) = with_inst!(&self.inst, r => (Resampler::input_frames_next(r), Resampler::input_frames_max(r)));
+        let zl = o.zl.as_ref().and_then(|s| size_spec(s, inn, inm)).unwrap_or(usize::MAX);
         let mut v = Vec::with_capacity(nch_given);
         for ch in 0..nch_given {
             let mut len = len_all;
@@ -406,7 +418,11 @@ impl<T: Smp> Slot<T> {
             }
             let mut cv = Vec::with_capacity(len);
             for k in 0..len {
-                cv.push(T::of64(sig.value(ch, self.consumed + k as u64)));
+                if k >= zl {
+                    cv.push(T::of64(0.0));
+                } else {
+                    cv.push(T::of64(sig.value(ch + o.co, self.consumed + k as u64)));
+                }
             }
             v.push(cv);
         }
